@@ -56,8 +56,13 @@ def rand_run(rng, start_fields, allow_abort=True):
             cand = rng.choice(proposals)
         elif c < 0.72 and proposals:
             cand = resplit(rng, rng.choice(proposals))
-        elif c < 0.76:
+        elif c < 0.74:
             cand = start_fields
+        elif c < 0.78 and best[1]:
+            # same length, different bytes (a size-only comparison cannot tell it from the best)
+            i = rng.randrange(len(best[1]))
+            swap = {b"a\n": b"b\n", b"b\n": b"a\n", b"{\n": b"}\n", b"}\n": b"{\n", b"c": b"d", b"x;": b"y;", b"\r\n": b"q\n"}
+            cand = (best[0], best[1][:i] + [swap.get(best[1][i], best[1][i])] + best[1][i + 1:], best[2], best[3])
         elif c < 0.86:
             cand = rand_fields(rng)
         elif c < 0.95:
